@@ -1442,6 +1442,18 @@ func genC20(r *rng, n int, emit func(string)) {
 		if r.chance(1, 10) && c < 1<<50 {
 			cnum = fmt.Sprintf("q%d", c) // fractional numbers are truncated
 		}
+		if i%7 == 0 { // one secret, consecutive calls that differ only in the hash (then only in the length)
+			for _, al := range []string{"SHA1", "SHA256", "SHA512", "SHA1"} {
+				emit(fmt.Sprintf("wcall generateHOTP %s %s %s %s %s", via, jsStr(sec), cnum, jsStr(dsp), jsStr(al)))
+			}
+			for _, dg := range []string{"6", "8", "10", "9"} {
+				emit(fmt.Sprintf("wcall generateTOTP %s %s %s %s %s n30", via, jsStr(sec), cnum, jsStr(dg), jsStr(asp)))
+			}
+			codeA := refHOTP(key, c, d, a)
+			for _, al := range []string{"SHA1", "SHA256", "SHA512"} {
+				emit(fmt.Sprintf("wcall validateHOTP %s %s %s %s %s %s n0", via, jsStr(sec), jsStr(codeA), fmt.Sprintf("n%d", c), jsStr(dsp), jsStr(al)))
+			}
+		}
 		switch r.intn(6) {
 		case 0:
 			emit(fmt.Sprintf("wcall generateHOTP %s %s %s %s %s", via, jsStr(sec), cnum, jsStr(dsp), jsStr(asp)))
